@@ -301,11 +301,11 @@ LEVEL_TEXT = ("Theorems over C05/Model.v (a mirror of zvariant's GVariant serial
               "serializer fails with a depth error exactly beyond 32/32/64 (C07_gv_ser); the deserializer model (every slice/index/subtraction/"
               "unwrap an explicit Panic) panics, for all inputs, only in the signature parser's recursion (> 50000 bytes) or in the tuple "
               "framing-offset read (>= 256 bytes) (C04_gv_panic_classes), never below 256 bytes, never with the proposed checked read. "
-              "Round trip (C02_gv_roundtrip): for values without dicts the deserializer model returns the value from the serializer model's "
-              "output and consumes exactly its length. Both models are tied to /repo by differential runs of the real zvariant (debug and release) with the spec oracle on its output.")
+              "Round trip (C02_gv_roundtrip): for every such value (all types, dicts included) the deserializer model returns the value from "
+              "the serializer model's output and consumes exactly its length. Both models are tied to /repo by differential runs of the real zvariant (debug and release) with the spec oracle on its output.")
 LEVEL_NOTE = ("Partial. Proved: C05 outside Known_C05 (values without fds, < 2^60 bytes), offset widths, C07 encoder side, C04 panic classes for "
-              "the decoder model, C02 round trip for values without dict nodes. Covered by the differential correspondence and oracle only, not "
-              "by a theorem: the round trip of dicts and through the Value / typed entry points, the decoder side of C07, re-encoding of decoded values, fds, typed Rust values (same serde call tree as the dynamic value by "
+              "the decoder model, C02 round trip (value with its own signature). Covered by the differential correspondence and oracle only, not "
+              "by a theorem: the round trip through the Value / typed entry points, the decoder side of C07, re-encoding of decoded values, fds, typed Rust values (same serde call tree as the dynamic value by "
               "assumption), enum variants / serde_bytes (not modelled), the exact stack bound of the signature parser, non-exhaustion of the "
               "decoder's fuel. Six known findings: bool, tail_padding, empty_offsets, dict_key_width (C05/C02), struct_offset_underflow, "
               "sig_parse_stack (C04). Trusted: Coq kernel, extraction, the hand-written models, harness hgv.")
